@@ -102,7 +102,7 @@ def equalize_case(draw, stackable=False):
         arrs, axes_arg, axes = arrs2, None, [-1] * k
     elif mode == "int":
         ndmin = min(np.asarray(a).ndim for a in arrs)
-        ax0 = draw(st.integers(-ndmin, -1))
+        ax0 = draw(st.integers(-ndmin, ndmin - 1))          # includes 0 and positive scalars (a falsy 0 is a legitimate axis)
         arrs2 = []
         for d, a, ax in zip(doms, arrs, axes):
             arrs2.append(np.moveaxis(np.asarray(a), ax, ax0).tolist())
